@@ -1,5 +1,7 @@
 // C10 / C11 / C19 — Mapbox vector tile layer codec, against ground truth produced by an independent encoder.
 use super::value::GeoValuePBF;
+use super::feature::VectorTileFeature;
+use super::geometry_type::GeomType;
 use super::{VectorTile, VectorTileLayer};
 use crate::GeoValue;
 use byteorder::LE;
@@ -424,6 +426,56 @@ vproof! {12, fn c19_geo_value_any_3() { value_any::<3>(); }}
 vproof! {14, fn c19_geo_value_any_10() { value_any::<10>(); }}
 vproof! {8, fn c19_layer_any_3() { layer_any::<3>(); }}
 vproof! {10, fn c19_layer_any_5() { layer_any::<5>(); }}
+
+// ---------------------------------------------------------------------------------- C19: geometry decoding
+// VectorTileFeature::to_geometry on arbitrary geometry bytes (what to_feature / to_features run on every feature of a tile
+// read from a container): an error or a geometry, never a panic / abort. T = geometry type (concrete per instance).
+fn geom_type_of(t: u8) -> GeomType {
+	match t {
+		1 => GeomType::MultiPoint,
+		2 => GeomType::MultiLineString,
+		3 => GeomType::MultiPolygon,
+		_ => GeomType::Unknown,
+	}
+}
+fn feature_geometry_any<const N: usize, const T: u8>() {
+	let b: [u8; N] = kani::any();
+	let f = VectorTileFeature { id: None, tag_ids: Vec::new(), geom_type: geom_type_of(T), geom_data: Blob::from(b.to_vec()) };
+	let g = f.to_geometry();
+	let good = g.is_ok();
+	std::mem::forget(g);
+	std::mem::forget(f);
+	kani::cover!(good || N < 3);
+	kani::cover!(!good);
+}
+// the command integer is ONE varint of 9 bytes (count up to 2^60: far more points than bytes follow), then E more bytes
+fn feature_geometry_longcmd<const E: usize, const T: u8>() {
+	let mut b: [u8; 9] = kani::any();
+	let mut i = 0;
+	while i < 8 {
+		b[i] |= 0x80;
+		i += 1;
+	}
+	b[8] &= 0x7f;
+	let e: [u8; E] = kani::any();
+	let mut v = b.to_vec();
+	v.extend_from_slice(&e);
+	let f = VectorTileFeature { id: None, tag_ids: Vec::new(), geom_type: geom_type_of(T), geom_data: Blob::from(v) };
+	let g = f.to_geometry();
+	let good = g.is_ok();
+	std::mem::forget(g);
+	std::mem::forget(f);
+	kani::cover!(!good);
+	kani::cover!(b[8] >= 0x10);
+}
+vproof! {6, fn c19_feature_geometry_any_2_t1() { feature_geometry_any::<2, 1>(); }}
+vproof! {7, fn c19_feature_geometry_any_3_t1() { feature_geometry_any::<3, 1>(); }}
+vproof! {7, fn c19_feature_geometry_any_3_t2() { feature_geometry_any::<3, 2>(); }}
+vproof! {8, fn c19_feature_geometry_any_4_t1() { feature_geometry_any::<4, 1>(); }}
+vproof! {8, fn c19_feature_geometry_any_4_t2() { feature_geometry_any::<4, 2>(); }}
+vproof! {10, fn c19_feature_geometry_any_6_t2() { feature_geometry_any::<6, 2>(); }}
+vproof! {12, fn c19_feature_geometry_longcmd_0_t1() { feature_geometry_longcmd::<0, 1>(); }}
+vproof! {12, fn c19_feature_geometry_longcmd_2_t2() { feature_geometry_longcmd::<2, 2>(); }}
 
 // ---------------------------------------------------------------------------------- C10: add_from_layer
 // Two equally named layers, each written by the independent encoder from its own ground truth (own key/value
